@@ -69,7 +69,10 @@ def make_case(prog, tier, nmsgs):
     rootname = dsl.root(prog)["name"]
     for i, (label, m) in enumerate(msgs):
         mid = "m%d" % i
-        ref = wire_ref.layout(prog, rootname, m)
+        try:
+            ref = wire_ref.layout(prog, rootname, m)
+        except wire_ref.OutOfDomain:
+            continue
         recs.append({"id": mid, "label": label, "val": m, "ref": ref})
         ops.append({"op": "enc", "id": mid, "pkt": rootname, "val": m})
         tails = TAILS if (i < 2 or thorough) else [[0xEE]]
@@ -79,14 +82,17 @@ def make_case(prog, tier, nmsgs):
     for j, (mf, kb, pk) in enumerate(unknown_keys(prog)):
         g = wire_ref.MsgGen(prog, random.Random(5), list_len=1, int_cls="pattern", str_idx=1, key=(mf, kb, pk))
         m = {"t": "o", "fs": g.fields(dsl.root(prog)["fields"])}
-        b = wire_ref.layout(prog, rootname, m)
+        try:
+            b = wire_ref.layout(prog, rootname, m)
+        except wire_ref.OutOfDomain:
+            continue
         kid = "k%d" % j
         keyrecs.append({"id": kid, "key": kb, "bytes": b})
         ops.append({"op": "deckey", "id": kid, "pkt": rootname, "bytes": b, "tail": [0xEE]})
     return {"prog": prog, "ops": ops}, recs, keyrecs
 
 
-def run_prog(cli, prog, tier, root, use_langs, nmsgs=6):
+def run_prog(cli, prog, tier, root, use_langs, nmsgs=0):
     comp = compile_prog(cli, prog, root)
     case, recs, keyrecs = make_case(prog, tier, nmsgs)
     res = {"prog": prog, "compile": comp, "msgs": recs, "keys": keyrecs, "sessions": {}}
@@ -98,8 +104,36 @@ def run_prog(cli, prog, tier, root, use_langs, nmsgs=6):
             continue
         sc = os.path.join(root, "scratch_" + l)
         os.makedirs(sc, exist_ok=True)
-        res["sessions"][l] = plug.session(comp["dirs"][l], case, sc)
+        if l == "lua":
+            lcase = {"prog": prog, "ops": [{"op": "dissect", "id": r["id"], "bytes": r["ref"]} for r in recs]}
+            res["sessions"][l] = plug.session(comp["dirs"][l], lcase, sc)
+        else:
+            res["sessions"][l] = plug.session(comp["dirs"][l], case, sc)
     return res
+
+
+def lua_trace_of(results):
+    events, meta = [], []
+    for res in results:
+        prog = res["prog"]
+        pid = prog.get("id", "?")
+        s = res["sessions"].get("lua")
+        if res["compile"]["rc"] != 0 or s is None or s.get("unsupported") or s.get("crash"):
+            continue
+        events.append({"ev": "load", "prog": {k: prog[k] for k in ("opts", "metas", "pkts")}})
+        meta.append({"prog": pid})
+        rootname = dsl.root(prog)["name"]
+        byid = {e.get("id"): e for e in s["events"] if e.get("ev") == "dissect"}
+        for rec in res["msgs"]:
+            e = byid.get(rec["id"])
+            if e is None:
+                continue
+            events.append({"ev": "msg", "id": rec["id"], "pkt": rootname, "val": rec["val"]})
+            meta.append({"prog": pid, "msg": rec["label"]})
+            adds = [{"kind": a.get("kind", "text"), "name": a.get("name") or "", "off": a.get("off", -1), "len": a.get("len", -1)} for a in e.get("adds", [])]
+            events.append({"ev": "dissect", "ok": bool(e.get("ok")), "adds": adds})
+            meta.append({"prog": pid, "msg": rec["label"], "lang": "lua", "err": e.get("err")})
+    return events, meta
 
 
 def trace_of(results, use_langs):
@@ -118,6 +152,8 @@ def trace_of(results, use_langs):
         rootname = dsl.root(prog)["name"]
         byid = {l: {} for l in use_langs}
         for l, s in res["sessions"].items():
+            if l not in byid:
+                continue
             for e in s["events"]:
                 byid[l].setdefault((e.get("ev"), e.get("id")), []).append(e)
         for rec in res["msgs"]:
@@ -147,7 +183,7 @@ def trace_of(results, use_langs):
     return events, meta
 
 
-def validate(events, meta, shards=8):
+def validate(events, meta, shards=8, module="TraceCodec"):
     """TLC TraceCodec over the events (sharded at program boundaries).  -> (list of TlcResult, verdicts)"""
     # split at load events
     groups, cur = [], []
@@ -170,9 +206,9 @@ def validate(events, meta, shards=8):
 
     def one(pack):
         text = "\n".join(json.dumps(e, sort_keys=True, separators=(",", ":")) for e, _ in pack) + "\n"
-        r = tlc.run_tlc("TraceCodec", cfg, workers=1, timeout=1800, extra_files={"trace.ndjson": text}, heap="3g")
+        r = tlc.run_tlc(module, cfg, workers=1, timeout=1800, extra_files={"trace.ndjson": text}, heap="3g")
         if r.timed_out or r.errors or r.rc != 0 or r.violated:
-            raise Infra("TraceCodec failed to run: rc=%s %s %s\n%s" % (r.rc, r.errors[:3], r.violated, r.out[-2500:]))
+            raise Infra(module + " failed to run: rc=%s %s %s\n%s" % (r.rc, r.errors[:3], r.violated, r.out[-2500:]))
         if r.depth != len(pack) + 1:
             raise Infra("codec trace not fully consumed: depth %d, events %d" % (r.depth, len(pack)))
         vs = []
